@@ -110,8 +110,9 @@ def run_pairs(seed=0):
             ok_any, devs = False, {}
             for sign in (+1,):
                 s1 = runs[sign][0]
-                dA = np.array(s1.current_A_applied) - A0            # uniform dimensionless shift (rows identical)
-                shift = dA[0]
+                # the user-level shift c (in field x length units) in the solver's dimensionless units: A_scale * c.  (Taken from the
+                # specification of the run, not from the solver's internal copy of A, which an implementation is free to re-gauge.)
+                shift = float(s0.A_scale) * sign * c
                 for phase_sign in PHASE_SIGNS:
                     s2 = TDGLSolver(dev, runs[sign][1], applied_vector_potential=s1.applied_vector_potential, terminal_currents=cur)
                     s2.psi_init = s2.psi_init * np.exp(phase_sign * 1j * (np.asarray(dev.mesh.sites) @ shift))
